@@ -80,6 +80,22 @@ CLAIMS = {
   note=TRUST + "Assumed: trees come from the parser (closed world of node types, no typed-nil nodes, len(Keys)==len(Values), switch cases are SwitchCaseStmt); the callback does not modify the tree.",
   technique="contract-based deductive verification: activation-trace postconditions generated from go/types, z3/cvc5",
   ref="4 C17"),
+ 'C18': dict(
+  text="Deductive proof over the four functions of the anko command (external calls abstracted, a ghost counter of the lines the tool itself prints, the activation trace for calls to vm.Execute): runNonInteractive returns only 0, 2 or 4; "
+       "0 exactly when the single vm.Execute call returned a nil error and the tool printed nothing itself; 4 exactly when it returned an error, with one diagnostic line; 2 when the file could not be read (no Execute call, one line); "
+       "with -e the executed source is the flag's value; Execute runs on the global environment e with nil options (call-site obligation), so the verdict is the library's by construction; main passes runNonInteractive's result to os.Exit and starts "
+       "the interactive loop only without -e; setupEnv builds a fresh environment and hands that same environment to core.Import; the import graph of the command contains the bundled package tables, core and vm (ground obligations on go/packages metadata).",
+  note=TRUST + "Assumed: fmt.Println writes one line; os.Exit ends the process with its argument; ioutil.ReadFile/flag are the standard library's; the Go toolchain compiles the verified source faithfully. The content of the file is not tracked through string(bytes).",
+  technique="contract-based deductive verification: postconditions over an activation trace and a ghost output counter, z3/cvc5",
+  ref="4 C18"),
+ 'C19': dict(
+  text="(1) range: deductive proof, for all int64 argument tuples, that the result is exactly the arithmetic progression from start by step strictly before stop (first element, constant difference, every element before stop, maximality in unbounded integers), "
+       "empty when the step points away, and that it panics exactly for a zero step or a wrong argument count; the proof found the int64 wrap-around defect (unbounded loop), repaired by a fix: commit. "
+       "(2) package tables: one ground obligation per entry of env.Packages / env.PackageTypes (about 590): the entry is bound to the Go object (resolved by go/types) whose name is the key, in the package whose import path is the table's name; two declared exceptions. "
+       "(3) core.Import/ImportToX define into the given environment only. Not yet under functional contract: keys, typeOf/kindOf, the toX conversion builtins, len (only their panic-freedom obligations are generated, unclaimed).",
+  note=TRUST + "Assumed: strconv/fmt/reflect.Convert semantics; Go's identifier resolution (go/types) is the oracle for the tables.",
+  technique="contract-based deductive verification: loop invariants for the progression, ground obligations from the typed AST for the tables, z3/cvc5",
+  ref="4 C19"),
  'C15': dict(
   text="Deductive proof, for all inputs, of the scanner/lexer half of the property: every Scanner method, Lexer.Lex/Error, Parse and ParseSrc "
        "is symbolically executed from the SSA of /repo's working tree against contracts kept in parser/zz_contracts_verif.go; obligations: memory "
